@@ -226,9 +226,18 @@ func TestPopulations(t *testing.T) {
 			if i == reps()-1 {
 				in.S.NoPermut = true // the runtime's own map order
 			}
+			see := &SeePP{}
+			in.Extra = append(in.Extra, see)
 			in.Run()
 			if in.Out.Panic != nil {
 				t.Fatalf("C10: start-up panicked: %v\n%s", in.Out.Panic, s.Shape())
+			}
+			// the factory post-processor saw every registered component, whatever the enumeration order
+			for _, c := range in.Comps {
+				n, _ := model.NameOf(c)
+				if k := sort.SearchStrings(see.seen, n); k >= len(see.seen) || see.seen[k] != n {
+					t.Fatalf("C10: a factory post-processor looking at the registered components did not see %q (it saw %d: %v) - order reg=%v mode=%d seed=%x\n%s", n, len(see.seen), see.seen, s.RegPerm, s.OrdMode, s.OrdSeed, s.Shape())
+				}
 			}
 			r := observe(in)
 			r.order = fmt.Sprintf("reg=%v mode=%d seed=%x nat=%v", s.RegPerm, s.OrdMode, s.OrdSeed, in.S.NoPermut)
@@ -237,6 +246,19 @@ func TestPopulations(t *testing.T) {
 		labels, nt := compare(t, s.Shape(), runs)
 		kit.Rec.Case(s.Shape(), nt, labels...)
 	})
+}
+
+// SeePP is a factory post-processor that looks at the registered components (an auto-configuration deciding what is
+// already there): whatever order the registry enumerates in, it sees all of them.
+type SeePP struct{ seen []string }
+
+func (*SeePP) Naming() string { return "see-pp" }
+func (p *SeePP) PostProcessComponentFactory(f container.Factory) error {
+	for n := range f.GetRegisteredComponents() {
+		p.seen = append(p.seen, n)
+	}
+	sort.Strings(p.seen)
+	return nil
 }
 
 // PlainPP: a user post-processor that is NOT instantiation-aware (only before / after initialization).
